@@ -396,6 +396,105 @@ m('guard1-no-catalog-lookup', 'GUARD1', 'DB.FindById', ('db.go', '''	ok, err := 
 
 	return getDocumentById(collection, id, tx)''', '''	return getDocumentById(collection, id, tx)'''))
 
+# ---- rules added in the second half of the build (one mutant each at least)
+m('rng4-far-bound-inclusive-dropped', 'RNG4', 'stop condition', ('index/range_index.go',
+  '''(endCmp > 0 || (endCmp == 0 && !vRange.EndIncluded))''', '''(endCmp >= 0)'''))
+m('rng4-reverse-uses-wrong-flag', 'RNG4', 'stop condition', ('index/range_index.go',
+  '''(startCmp < 0 || (startCmp == 0 && !vRange.StartIncluded))''', '''(startCmp < 0 || (startCmp == 0 && !vRange.EndIncluded))'''))
+m('rng4-near-bound-skip-removed', 'RNG4', 'stop condition', ('index/range_index.go',
+  '''		if vRange.Start != nil && !vRange.StartIncluded { // skip all values equals to range.start''', '''		if false && vRange.Start != nil && !vRange.StartIncluded { // skip all values equals to range.start'''))
+m('rng3-isempty-too-eager', 'RNG3', 'Range.', ('index/range.go',
+  '''	return (res > 0) || (res == 0 && !r.StartIncluded && !r.EndIncluded)''', '''	return (res > 0) || (res == 0 && !(r.StartIncluded && r.EndIncluded))'''))
+m('rng3-intersect-drops-shared-start', 'RNG3', 'Range.Intersect', ('index/range.go',
+  '''		intersection.StartIncluded = intersection.StartIncluded && r2.StartIncluded''', '''		intersection.StartIncluded = false'''))
+m('win2-skip-off-by-one', 'WIN2', 'window', ('plan.go',
+  '''	if nd.skipped < nd.skip {''', '''	if nd.skipped <= nd.skip {'''))
+m('sort3-keep-first-only', 'SORT3', 'buffers every document', ('plan.go',
+  '''	nd.docs = append(nd.docs, doc)
+	return nil''', '''	if len(nd.docs) == 0 || len(nd.opts) > 1 {
+		nd.docs = append(nd.docs, doc)
+	}
+	return nil'''))
+m('plan10-findfirst-point-lookup', 'PLAN10', 'DB.FindFirst', ('db.go',
+  '''func (db *DB) FindFirst(q *query.Query) (*d.Document, error) {
+''', '''func (db *DB) FindFirst(q *query.Query) (*d.Document, error) {
+	if u, ok := q.Criteria().(*query.UnaryCriteria); ok && u.Field == d.ObjectIdField {
+		if id, isString := u.Value.(string); isString {
+			return db.FindById(q.Collection(), id)
+		}
+	}
+'''))
+m('err4-success-before-error-test', 'ERR4', 'DB.DeleteById', ('db.go',
+  '''	value, err := tx.Get(docKey)
+	if err != nil {
+		return err
+	}
+
+	if value == nil { // no such document: nothing to delete
+		return nil
+	}
+''', '''	value, err := tx.Get(docKey)
+	if value == nil { // no such document: nothing to delete
+		return nil
+	}
+
+	if err != nil {
+		return err
+	}
+'''))
+m('adp9-no-last-on-overrun', 'ADP9', 'boltCursor.Seek', ('store/bbolt/bbolt.go',
+  '''	if key == nil {
+		key, value := c.Cursor.Last()''', '''	if key == nil && len(seek) == 0 {
+		key, value := c.Cursor.Last()'''))
+m('adp10-empty-target-forwarded', 'ADP10', 'empty target', ('store/badger/badger.go',
+  '''	cursor.exhausted = cursor.reverse && len(key) == 0
+	if !cursor.exhausted {
+		cursor.it.Seek(key)
+	}''', '''	cursor.exhausted = false
+	cursor.it.Seek(key)'''))
+m('key7-decode-by-last-separator', 'KEY7', 'DB.ListCollections', ('db.go',
+  '''		collectionName := string(bytes.TrimPrefix(item.Key, prefix))''', '''		collectionName := string(item.Key[bytes.LastIndexByte(item.Key, ':')+1:])'''))
+m('key8-raw-string-in-index-key', 'KEY8', 'value part', ('index/range_index.go',
+  '''func (idx *rangeIndex) getKey(v interface{}) ([]byte, error) {
+''', '''func (idx *rangeIndex) getKey(v interface{}) ([]byte, error) {
+	if s, isString := v.(string); isString && len(s) < 8 {
+		return append(idx.getKeyPrefixForType(internal.TypeId(v)), s...), nil
+	}
+'''))
+m('ovf1-skip-plus-limit', 'OVF1', 'skipLimitNode.Callback', ('plan.go',
+  '''	if nd.limit < 0 || (nd.limit >= 0 && nd.consumed < nd.limit) {''', '''	if nd.limit < 0 || (nd.limit >= 0 && nd.skipped+nd.consumed < nd.skip+nd.limit) {'''))
+m('id4-accept-by-length', 'ID4', 'isValidObjectId', ('document/document.go',
+  '''	_, err := uuid.FromString(id)
+	return err == nil''', '''	if len(id) == 36 && id[8] == '-' {
+		return true
+	}
+	_, err := uuid.FromString(id)
+	return err == nil'''))
+m('write1-skip-unchanged', 'WRITE1', 'DB.UpdateById', ('db.go',
+  '''	if err := saveDocument(updatedDoc, []byte(docKey), tx); err != nil {
+		return err
+	}
+	return tx.Commit()''', '''	if updatedDoc != doc {
+		if err := saveDocument(updatedDoc, []byte(docKey), tx); err != nil {
+			return err
+		}
+	}
+	return tx.Commit()'''))
+m('norm2-operator-rewritten', 'NORM2', 'VisitUnaryCriteria', ('visit.go',
+  '''	return &query.UnaryCriteria{
+		Field:  c.Field,
+		OpType: c.OpType,
+		Value:  normValue,
+	}''', '''	op := c.OpType
+	if op == query.GtEqOp && normValue == nil {
+		op = query.EqOp
+	}
+	return &query.UnaryCriteria{
+		Field:  c.Field,
+		OpType: op,
+		Value:  normValue,
+	}'''))
+
 # reverts of the fix: commits (rule and expected key from known_findings.json)
 ff = json.load(open(os.path.join(os.path.dirname(os.path.abspath(__file__)), '..', 'known_findings.json')))
 
